@@ -39,6 +39,7 @@ fn engine_tree(model_text: &str) -> Value {
     }
 }
 
+#[derive(Clone)]
 pub struct RandomParams {
     pub max_steps: usize,
     pub pact: f64,
@@ -47,6 +48,9 @@ pub struct RandomParams {
     pub codes: Vec<String>,
     /// novelty guidance: prefer the (state, choice) pairs taken least often so far
     pub guided: bool,
+    /// clock moves explored and the grid of clock readings they may reach (per model, from gen.py)
+    pub advset: Vec<i64>,
+    pub grid: Vec<i64>,
 }
 
 /// how often each (model, input, canonical state, choice) was taken in this harness process
@@ -71,13 +75,15 @@ fn state_key(w: &World, pid: &str, budget: usize) -> String {
     ts.sort();
     let mut q: Vec<String> = w.parked(pid).iter().map(|k| format!("{}#{}", k.0, k.1)).collect();
     q.sort();
-    format!("{}|{}|{}", ts.join(","), q.join(","), budget)
+    format!("{}|{}|{}|{}", ts.join(","), q.join(","), budget, verif::clock_now())
 }
 
 #[derive(Clone, Debug)]
 enum Choice {
     Exec(Key),
     Act(Key, String, Value, bool), // target, kind, opts, free (does not use the budget)
+    Tick,
+    Advance(i64),
 }
 
 impl Choice {
@@ -85,6 +91,8 @@ impl Choice {
         match self {
             Choice::Exec(k) => format!("E:{}#{}", k.0, k.1),
             Choice::Act(k, kind, o, _) => format!("A:{}#{}:{}:{}", k.0, k.1, kind, o),
+            Choice::Tick => "T".to_string(),
+            Choice::Advance(d) => format!("V:{d}"),
         }
     }
 }
@@ -140,8 +148,30 @@ fn enumerate_choices(
         }
         out.push(Choice::Act(("zz".to_string(), 1), "skip".to_string(), none.clone(), false));
     }
+    // time: only for models that have timeout rules
+    if !p.advset.is_empty() {
+        let now = (verif::clock_now() - crate::world::CLOCK_BASE) / 1000;
+        out.push(Choice::Tick);
+        for d in &p.advset {
+            if p.grid.contains(&(now + d)) {
+                out.push(Choice::Advance(*d));
+            }
+        }
+    }
     out
 }
+
+/// the clock moves of a model as the generator fixed them (the same grid TLC is configured with)
+pub fn clock_params(line: &Value) -> (Vec<i64>, Vec<i64>) {
+    let get = |k: &str| -> Vec<i64> {
+        line["clock"][k]
+            .as_array()
+            .map(|a| a.iter().filter_map(|v| v.as_i64()).collect())
+            .unwrap_or_default()
+    };
+    (get("adv"), get("grid"))
+}
+
 
 /// one random scenario on a fresh engine
 pub async fn random_scenario(
@@ -154,6 +184,9 @@ pub async fn random_scenario(
     p: &RandomParams,
     visits: &mut Visits,
 ) -> Vec<Value> {
+    let mut pp = p.clone();
+    (pp.advset, pp.grid) = clock_params(line);
+    let p = &pp;
     let name = line["name"].as_str().unwrap();
     let model_text = line["model"].as_str().unwrap();
     let mut w = World::new(cfg, workdir, "r", &line["spec"]).await;
@@ -203,6 +236,8 @@ pub async fn random_scenario(
                         budget -= 1;
                     }
                 }
+                Choice::Tick => w.tick().await,
+                Choice::Advance(d) => w.advance(*d).await,
             }
         }
         w.lines.push(json!({"ev": "end", "steps": w.steps}));
@@ -218,6 +253,16 @@ pub async fn random_scenario(
             .iter()
             .filter(|t| t.1 == "act" && t.2 == "interrupted")
             .collect();
+        if !p.advset.is_empty() && rng.gen_bool(0.25) {
+            let now = (verif::clock_now() - crate::world::CLOCK_BASE) / 1000;
+            let moves: Vec<i64> = p.advset.iter().cloned().filter(|d| p.grid.contains(&(now + d))).collect();
+            if moves.is_empty() || rng.gen_bool(0.5) {
+                w.tick().await;
+            } else {
+                w.advance(*moves.choose(rng).unwrap()).await;
+            }
+            continue;
+        }
         let do_action = budget > 0 && !tasks.is_empty() && rng.gen_bool(p.pact);
         if do_action {
             let kind = p.kinds.choose(rng).unwrap().clone();
@@ -292,6 +337,8 @@ pub fn random(args: &Args) -> i32 {
         kinds,
         codes: vec!["e1".to_string(), "e2".to_string()],
         guided: args.get("guided").is_some(),
+        advset: vec![],
+        grid: vec![],
     };
     let mut visits = Visits::new();
     let cfg = Cfg::default();
@@ -368,6 +415,14 @@ pub async fn replay_scenario(
                 w.act(&pid, &key_of(&l["t"]), kind, &opts).await;
                 true
             }
+            "Tick" => {
+                w.tick().await;
+                true
+            }
+            "Advance" => {
+                w.advance(l["opt"]["d"].as_i64().unwrap_or(0)).await;
+                true
+            }
             other => {
                 w.lines.push(json!({"ev": "note", "what": "unknown label", "a": other}));
                 false
@@ -431,16 +486,17 @@ fn explore_key(w: &World, pid: &str, budget: usize, counts: &std::collections::B
                 .count();
             let c = counts.get(&k).cloned().unwrap_or((0, 0, 0));
             ts.push(format!(
-                "{}:{}:{}#{}:{}:{}:{}:{}:{}.{}.{}",
+                "{}:{}:{}#{}:{}:{}:{}:{}:{}.{}.{}:{}:{}",
                 k, t["st"].as_str().unwrap_or(""), t["prev"][0].as_str().unwrap_or(""), t["prev"][1], rank,
-                t["err"].as_str().unwrap_or(""), t["emitOff"], t["catchDone"], c.0.min(2), c.1.min(2), c.2.min(2)
+                t["err"].as_str().unwrap_or(""), t["emitOff"], t["catchDone"], c.0.min(2), c.1.min(2), c.2.min(2),
+                t["start"], t["tdone"]
             ));
         }
     }
     ts.sort();
     let mut q: Vec<String> = w.parked(pid).iter().map(|k| format!("{}#{}", k.0, k.1)).collect();
     q.sort();
-    format!("{}|{}|{}|{}", ts.join(","), q.join(","), budget, p["ps"].as_str().unwrap_or(""))
+    format!("{}|{}|{}|{}|{}", ts.join(","), q.join(","), budget, p["ps"].as_str().unwrap_or(""), post["now"])
 }
 
 struct Frontier {
@@ -462,6 +518,9 @@ async fn explore_run(
     remaining: &mut std::collections::HashMap<String, usize>,
     run_no: usize,
 ) -> Vec<Value> {
+    let mut pp = p.clone();
+    (pp.advset, pp.grid) = clock_params(line);
+    let p = &pp;
     let name = line["name"].as_str().unwrap();
     let model_text = line["model"].as_str().unwrap();
     let mut w = World::new(cfg, workdir, "x", &line["spec"]).await;
@@ -501,6 +560,8 @@ async fn explore_run(
                     counts.entry(format!("{}#{}", k.0, k.1)).or_insert((0, 0, 0)).2 += 1;
                 }
             }
+            Choice::Tick => w.tick().await,
+            Choice::Advance(d) => w.advance(*d).await,
         }
         if let Some(last) = w.lines.last() {
             if let Some(gens) = last["gens"].as_array() {
@@ -578,6 +639,8 @@ pub fn explore(args: &Args) -> i32 {
         kinds,
         codes: args.str("codes", "e1,e2").split(',').map(|s| s.to_string()).collect(),
         guided: false,
+        advset: vec![],
+        grid: vec![],
     };
     let max_runs = args.num("max-runs", 20000) as usize;
     let shard = args.num("shard", 0) as usize;
